@@ -262,7 +262,18 @@ func compress(resultBytes []byte, err error) ([]byte, error) {
 	return compressed, nil
 }
 
-func (h *handler) doQuery(sqlString string, permalink string) (*QueryResult, error) {
+func (h *handler) doQuery(sqlString string, permalink string) (qr *QueryResult, finalErr error) {
+	defer func() {
+		// Executing a query evaluates the expressions that it contains, some of
+		// which panic on unexpected data. Fail the query rather than the process
+		// (queries don't run on the goroutine that serves the HTTP request).
+		p := recover()
+		if p != nil {
+			qr = nil
+			finalErr = fmt.Errorf("Panic while running query: %v", p)
+		}
+	}()
+
 	rs, err := h.db.Query(sqlString, false, nil, false)
 	if err != nil {
 		log.Errorf("Error running query: %v", err)
